@@ -279,7 +279,9 @@ class TLSTransportWrapper:
             data: Plaintext data to encrypt and send.
         """
         if self.tls_protocol.tls_conn:
-            self.tls_protocol.tls_conn.send(data)
+            # send() takes at most one TLS record (16 KiB) and returns how much
+            # it accepted; sendall() loops until everything is encrypted
+            self.tls_protocol.tls_conn.sendall(data)
             self.tls_protocol._flush_outgoing()
 
     def close(self) -> None:
